@@ -8,6 +8,7 @@ package sigagg
 
 import (
 	"context"
+	"encoding/hex"
 	"errors"
 	"fmt"
 	"math/big"
@@ -41,6 +42,9 @@ type PartSpec struct {
 	// ForkEpoch > 0: the signature is made over the object root wrapped with the domain of the fork
 	// active at this epoch (whatever epoch the object itself names; no genesis rule for the builder domain).
 	ForkEpoch uint64 `json:"fork_epoch"`
+	// ForkVersion (8 hex digits): the signature is made over the object root wrapped with
+	// compute_domain(type, this fork version, genesis validators root), evaluated in the harness.
+	ForkVersion string `json:"fork_version"`
 }
 
 // ValSpec is one validator's entry of the batch.
@@ -63,8 +67,9 @@ type CaseSpec struct {
 	// Cancel: the context passed to Aggregate is cancelled -- 0 never, 1 before the call,
 	// k+1 right after the k-th invocation of the (wrapped) verifier.
 	Cancel int `json:"cancel"`
-	// Epoch of the objects (0: the default epoch 3).
-	Epoch uint64 `json:"epoch"`
+	// Epoch of the objects (0: the default epoch 3, unless EpochZero).
+	Epoch     uint64 `json:"epoch"`
+	EpochZero bool   `json:"epoch_zero"`
 	// Seq > 0: the call belongs to sequence Seq: ONE aggregator with ONE verifier (sigagg.NewVerifier)
 	// lives through all calls of the sequence, in order, as in production.
 	Seq int `json:"seq"`
@@ -108,6 +113,7 @@ type env struct {
 	keys     map[[3]int]keyset // (v, n, t)
 	other    tbls.PrivateKey
 	otherNeg tbls.PrivateKey
+	versions []eth2p0.Version // fork versions of the beacon mock's schedule
 	r        *rand.Rand
 	// long-lived aggregator of the current sequence; its subscribers and verifier dispatch to the hooks
 	seqID     int
@@ -145,6 +151,9 @@ func newEnv(t *testing.T) *env {
 	for _, g := range dutygen.Gens(true) {
 		e.gens[g.Name] = g
 		e.names = append(e.names, g.Name)
+	}
+	if e.versions, err = dutygen.ForkVersions(ctx, bmock); err != nil {
+		t.Fatal(err)
 	}
 	e.other, err = tbls.GenerateInsecureKey(t, e.r)
 	if err != nil {
@@ -252,7 +261,7 @@ func (e *env) run(spec CaseSpec) Case {
 		e.t.Fatalf("unknown type %q", spec.Type)
 	}
 	epoch := spec.Epoch
-	if epoch == 0 {
+	if epoch == 0 && !spec.EpochZero {
 		epoch = 3
 	}
 	slot := epoch*e.spe + 5
@@ -288,6 +297,22 @@ func (e *env) run(spec CaseSpec) Case {
 		return ct
 	}
 	rootID := func(cl, variant int) int { return 100*variant + cl + 1 }
+	versionRoot := func(cl int, hexv string) [32]byte { // content cl wrapped with the domain of an explicit fork version
+		dom, _, oroot, err := g.Parts(getContent(cl).raw, e.spe)
+		if err != nil {
+			e.t.Fatal(err)
+		}
+		b, err := hex.DecodeString(hexv)
+		if err != nil || len(b) != 4 {
+			e.t.Fatalf("bad fork version %q", hexv)
+		}
+		r, err := dutygen.SigningRootForkVersion(e.ctx, e.bmock, dom, oroot, eth2p0.Version(b))
+		if err != nil {
+			e.t.Fatal(err)
+		}
+
+		return r
+	}
 	forkRoots := map[[2]uint64][32]byte{}
 	forkRoot := func(cl int, fe uint64) [32]byte { // content cl wrapped with the domain of the fork active at epoch fe
 		k := [2]uint64{uint64(cl), fe}
@@ -329,6 +354,9 @@ func (e *env) run(spec CaseSpec) Case {
 				if ps.ForkEpoch > 0 {
 					root = forkRoot(ps.SignOver, ps.ForkEpoch)
 				}
+				if ps.ForkVersion != "" {
+					root = versionRoot(ps.SignOver, ps.ForkVersion)
+				}
 				s, err := tbls.Sign(sk, root[:])
 				if err != nil {
 					e.t.Fatal(err)
@@ -346,6 +374,17 @@ func (e *env) run(spec CaseSpec) Case {
 					rid = rootID(ps.SignOver, 0)
 					if forkRoot(ps.SignOver, ps.ForkEpoch) != getContent(ps.SignOver).roots[0] {
 						rid = 1000 + 10*int(ps.ForkEpoch) + ps.SignOver // another root: other fork's domain
+					}
+				}
+				if ps.ForkVersion != "" {
+					rid = rootID(ps.SignOver, 0)
+					if vr := versionRoot(ps.SignOver, ps.ForkVersion); vr != getContent(ps.SignOver).roots[0] {
+						rid = 5000 + 10*int(vr[0]) + ps.SignOver // another root: another fork version's domain
+						for i, v := range e.versions {
+							if hex.EncodeToString(v[:]) == ps.ForkVersion {
+								rid = 5000 + 10*i + ps.SignOver
+							}
+						}
 					}
 				}
 				term = fmt.Sprintf("PSig %d %s %d", ps.SignerVal, coqZ(ps.Signer), rid)
@@ -857,10 +896,47 @@ func (e *env) genCases(total int) []CaseSpec {
 			add(c)
 		}
 	}
+	seq := 0
+	// epochs 0 and 1 and the edges of every fork of the mock's schedule: signed under the fork version
+	// the spec prescribes for the object's own epoch (must publish) and under other fork versions of the
+	// schedule, the genesis version first (must fail); one long-lived aggregator per type
+	for ti, name := range e.names {
+		seq++
+		for ei, ep := range []uint64{0, 1, 2047, 2048, 50687, 50688} {
+			own := e.versions[0] // builder registrations sign with the genesis fork version
+			if e.gens[name].Duty != core.DutyBuilderRegistration {
+				v, err := dutygen.VersionAt(e.ctx, e.bmock, eth2p0.Epoch(ep))
+				if err != nil {
+					e.t.Fatal(err)
+				}
+				own = v
+			}
+			var others []string
+			for _, v := range e.versions {
+				if v != own {
+					others = append(others, hex.EncodeToString(v[:]))
+				}
+			}
+			pick := []string{"", others[0], others[1+(ti+ei)%(len(others)-1)]}
+			if total > 3000 {
+				pick = append([]string{""}, others...)
+			}
+			for _, fv := range pick {
+				ps := validParts(0, subset(r, 4, 3+r.Intn(2)))
+				for i := range ps {
+					ps[i].ForkVersion = fv
+				}
+				c := CaseSpec{Kind: "epoch-edge", Type: name, T: 3, N: 4, Epoch: ep, EpochZero: ep == 0, Seq: seq, Vals: []ValSpec{{V: 0, Parts: ps}}}
+				if fv != "" {
+					c.Corrupt = []string{"other_fork_version"}
+				}
+				add(c)
+			}
+		}
+	}
 	// long-lived aggregator + verifier over a sequence of calls of one duty type at epochs in
 	// different forks of the beacon mock (Electra at 2048, Fulu at 50688), both orders: objects signed
 	// for their own epoch's domain (must publish) and with the other fork's domain (must fail)
-	seq := 0
 	for _, name := range e.names {
 		for _, pair := range [][2]uint64{{100, 3000}, {3000, 100}, {3000, 60000}, {60000, 3000}} {
 			if total < 3000 && pair[0]+pair[1] > 60000 && r.Intn(4) != 0 {
